@@ -249,7 +249,8 @@ def check_case(programs, fresh, raw_preempts, max_pre, rec=None, by_label=None):
     labels = s0.labels
     K = len(labels)
     crit = [i for i, lab in enumerate(labels) if lab[0] in CRITICAL] or list(range(K))
-    calls = [i for i, lab in enumerate(labels) if lab[0] in ("fa", "fb", "fc", "_call")] or crit
+    # (the functions under test and what runs at the entry of every instrumented call)
+    calls = [i for i, lab in enumerate(labels) if lab[0] in ("fa", "fb", "fc", "_call", "fits_selector", "proceed")] or crit
     preempt = {}
     n = len(programs)
     for j, (r, tgt, anywhere) in enumerate(raw_preempts[:max_pre]):
